@@ -144,6 +144,7 @@ class TraitSpec:
         self.attrs = []
         self.is_unsafe = False
         self.generic = False          # trait Tr<G: Clone + Debug>
+        self.const_pos = None         # None | "before" | "after": a const generic parameter N before / after G (or alone)
         self.supers = []
         self.where = []
         self.methods = []
@@ -151,10 +152,16 @@ class TraitSpec:
         self.extra_items = []         # raw item texts (assoc types, default methods) for pinned cases
 
     def generics_text(self):
-        return "<G: ::core::clone::Clone + ::core::fmt::Debug + ::core::marker::Send + ::core::marker::Sync + 'static>" if self.generic else ""
+        g = "G: ::core::clone::Clone + ::core::fmt::Debug + ::core::marker::Send + ::core::marker::Sync + 'static" if self.generic else None
+        c = "const KN: usize" if self.const_pos else None
+        items = [x for x in ([c, g] if self.const_pos == "before" else [g, c]) if x]
+        return ("<" + ", ".join(items) + ">") if items else ""
 
     def args_text(self):
-        return "<i32>" if self.generic else ""
+        g = "i32" if self.generic else None
+        c = "3" if self.const_pos else None
+        items = [x for x in ([c, g] if self.const_pos == "before" else [g, c]) if x]
+        return ("<" + ", ".join(items) + ">") if items else ""
 
     def source(self):
         L = list(self.attrs)
@@ -179,6 +186,8 @@ def random_trait(rng, name="Tr", dyn_safe=False, allow_async=True, with_async_tr
     t.vis = rng.choice(["", "pub", "pub(crate)"])
     t.attrs = rng.sample(TRAIT_ATTRS, rng.randint(0, 2)) if rng.random() < 0.5 else []
     t.generic = allow_generic_trait and rng.random() < 0.25
+    if allow_generic_trait and rng.random() < 0.2:
+        t.const_pos = rng.choice(["before", "after"])
     if with_async_trait:
         t.async_trait = rng.choice(["#[::async_trait::async_trait]", "#[async_trait::async_trait]"])
     n = nmethods or rng.randint(1, 4)
